@@ -49,6 +49,29 @@ def gen_targets(rng, inp_n: int, n_all: int, exact: bool, boundary_heavy=False):
     return sorted(float(x) for x in rs)
 
 
+import itertools as _it
+
+_TMS = [list(c) for k in range(1, 4) for c in _it.combinations_with_replacement([0.0, 1.0, 2.5], k)]
+# exhaustive small scope (thorough tier): all non-empty multisets over 3 values with <= 3+3 elements
+# x 4 configurations x 6 metrics x easy counts {0,1}^2; targets on the 1/(2N) grid of the relevant
+# population plus values outside [0,1]
+EXH_THR = [(a, b, c, m, e) for a in range(len(_TMS)) for b in range(len(_TMS)) for c in range(4)
+           for m in range(6) for e in range(4)]
+
+
+def exhaustive_thr_input(i):
+    a, b, c, m, e = EXH_THR[i]
+    pos, neg = list(_TMS[a]), list(_TMS[b])
+    ep, en = e // 2, e % 2
+    sc, ec = gen.CFGS[c]
+    metric = gen.METRICS[m]
+    n_all = {"tpr": len(pos) + ep, "fnr": len(pos) + ep, "tnr": len(neg) + en, "fpr": len(neg) + en}.get(
+        metric, len(pos) + len(neg) + ep + en)
+    rs = sorted(set([k / (2 * n_all) for k in range(0, 2 * n_all + 1)] + [-0.5, 1.5]))
+    return {"stream": "exact", "pos": pos, "neg": neg, "ep": ep, "en": en, "sc": sc, "ec": ec,
+            "metric": metric, "alias": False, "scalar": False, "intdt": False, "rs": rs}
+
+
 def gen_thr_input(rng, i, boundary_heavy=False):
     stream = "exact" if i % 2 == 0 else "generic"
     pos, neg = gen.score_sets(rng, stream, nmin=1, allow_empty=False)
